@@ -26,6 +26,18 @@ fn run(case: &Value, stub: &stub::Stub) -> Value {
 
 fn main() {
     std::panic::set_hook(Box::new(|_| {}));
+    // real nodes always run with a tracing subscriber, and `tracing` evaluates the arguments of
+    // error!/warn!/debug! lines only when a subscriber enables the callsite: format every event's fields
+    // (into a sink) so that a panicking expression inside a log line surfaces as a `panic` result here too
+    let level = match std::env::var("VERIF_TRACE_LEVEL").as_deref() {
+        Ok("debug") => tracing::Level::DEBUG,
+        Ok("error") => tracing::Level::ERROR,
+        _ => tracing::Level::TRACE,
+    };
+    let _ = tracing_subscriber::fmt()
+        .with_max_level(level)
+        .with_writer(std::io::sink)
+        .try_init();
     let stub = stub::Stub::start();
     let stdin = std::io::stdin();
     let out = std::io::stdout();
